@@ -399,6 +399,19 @@ func runC16(w *W) {
 			w.R.Evals += 2
 			w.R.Nontrivial++
 			g1 := l.GetTimeNineStar().GetIndex()
+			if h == 23 || k == d.J%12 {
+				// the hour star is fixed by the day branch's group, the half-year and the slot: it has no day-boundary option, so
+				// switching the option of the date's eight-character object leaves it where it was
+				ec := l.GetEightChar()
+				s0 := ec.GetSect()
+				ec.SetSect(3 - s0)
+				g2 := l.GetTimeNineStar().GetIndex()
+				g3 := l.GetTime().GetNineStar().GetIndex()
+				ec.SetSect(s0)
+				if g2 != g1 || g3 != l.GetTime().GetNineStar().GetIndex() {
+					w.Viol("C16:hourStar:depends-on-chart-option:"+d.Ymd, fmt.Sprintf("hour star at %s %02d:00 is %d with the eight-character convention %d and %d with convention %d", d.Ymd, h, g1+1, s0, g2+1, 3-s0), d.Ymd)
+				}
+			}
 			if !intIn(accept, g1) {
 				w.Viol("C16:Lunar.GetTimeNineStar:"+d.Ymd, fmt.Sprintf("hour star at %s %02d:00 is %d, reference %v (ascending half=%v, day branch %s, slot %d)", d.Ymd, h, g1+1, plus1(accept), asc, zhiS[db], slot), d.Ymd)
 			}
